@@ -12,6 +12,7 @@ import KskmProofs.Lemmas.HsmStore
 import KskmProofs.Lemmas.KmHsmEq
 import KskmProofs.Lemmas.Base64
 import KskmProofs.C14
+import KskmProofs.Lemmas.C15HsmConfig
 namespace Kskm.C15
 
 /-! ## Constants and the mechanism table are those of the code and of PKCS#11 -/
@@ -1255,5 +1256,278 @@ example : ((Km.findInSlotsP exMod "K" ckoPublic none [0, 1, 2]).runTok exTok {})
     .ok (some { label := "K", keyType := .rsa, keyClass := ckoPublic, publicKey := some "AwEAAYAB",
                 module := "mod", slot := 1, pubHandle := some 7 }) := by
   rw [Km.runTok_findInSlotsP]; decide +kernel
+
+end Kskm.C15
+
+/-! ## The rest of misc/hsm.py: `.hsmconfig` files (`parse_hsmconfig`, `load_hsmconfig`), `find_key_by_id`, the `name` filter
+    (model: Kskm/HsmConfig.lean; lemmas: KskmProofs/Lemmas/C15HsmConfig.lean; correspondence: harness/corr_C15_hsmconfig.py) -/
+namespace Kskm.C15
+open Kskm.HsmConfig
+open Kskm.Xml (Classes Out)
+
+/-- **The interpolation loop terminates.** Whatever the character classes and whatever `res` / `defaults` hold, the
+    `while True:` loop of `parse_hsmconfig` never needs more rounds than the right-hand side has "$" characters: every
+    round that does not leave the loop replaces at least one "$…" by a "$"-free value (`round_again_lt`), so the fuel
+    never runs out for fuel ≥ the number of "$". -/
+theorem hsmconfig_interpolation_terminates (isWord : Char → Bool) (lookup : Str → Option Str) (fuel : Nat) (rhs : Str)
+    (h : dollars rhs ≤ fuel) : interpolate isWord lookup fuel rhs ≠ .outOfFuel :=
+  interpolate_terminates isWord lookup fuel rhs h
+
+/-- one round that goes on strictly lowers the measure (the reason for the theorem above) -/
+theorem hsmconfig_round_decreases (isWord : Char → Bool) (lookup : Str → Option Str) (rhs rhs' : Str)
+    (h : interpRound isWord lookup rhs = .again rhs') : dollars rhs' < dollars rhs :=
+  round_again_lt isWord lookup rhs rhs' h
+
+/-- … hence `parse_hsmconfig` and `load_hsmconfig` (which supply exactly that fuel) answer on EVERY input: lines, defaults,
+    limit, file text, environment. -/
+theorem hsmconfig_parse_never_hangs (cls : Classes) (defaults : Defaults) (maxLines : Int) (lines : List Str) :
+    parseHsmconfig cls defaults maxLines lines ≠ .outOfFuel := by
+  unfold parseHsmconfig
+  have := loop_ne_outOfFuel cls defaults lines { maxLines, res := [] }
+  split <;> simp_all
+
+theorem hsmconfig_load_never_hangs (cls : Classes) (defaults : Option (List (Str × Str))) (environ : Defaults)
+    (maxLines : Int) (text : Str) : loadHsmconfig cls defaults environ maxLines text ≠ .outOfFuel := by
+  unfold loadHsmconfig
+  simp only
+  split
+  · split <;> simp
+  · simp
+  · rename_i h; exact absurd h (hsmconfig_parse_never_hangs _ _ _ _)
+-- a chain with a prefix-overlapping name: "$FOO" is replaced inside "$FOO_BAR" too, two rounds for three "$"
+example : dollars "$FOO/$FOO_BAR$B".toList = 3 ∧
+    interpolate Xml.pyClasses.isWord (lookupVar [("FOO".toList, "a".toList)] (fun k => if k = "B".toList then some "b".toList else none))
+      3 "$FOO/$FOO_BAR$B".toList = .ok "a/a_BARb".toList := by decide +kernel
+
+/-- **No reference survives.** When `parse_hsmconfig` succeeds, no value of the returned dict holds a "$" that is followed
+    by a word character — for all defaults (the code refuses a "$" in every value it substitutes, so no hypothesis on the
+    defaults is needed), all limits, all lines. -/
+theorem hsmconfig_result_interpolated (cls : Classes) (defaults : Defaults) (maxLines : Int) (lines : List Str)
+    (res : Dict) (h : parseHsmconfig cls defaults maxLines lines = .ok res) :
+    ∀ p ∈ res, ∀ (pre : Str) (c : Char) (post : Str), p.2 = pre ++ '$' :: c :: post → cls.isWord c = false := by
+  unfold parseHsmconfig at h
+  split at h
+  · rename_i st hl
+    cases h
+    intro p hp
+    rcases (loop_ok_inv cls defaults lines _ _ hl).2 p hp with hp | hp
+    · cases hp
+    · exact searchVar_none cls.isWord p.2 hp
+  · cases h
+  · cases h
+example : parseHsmconfig Xml.pyClasses (fun k => if k = "HOME".toList then some "/h".toList else none) 100
+      ["A=$HOME/x\n".toList, " # c\r\n".toList, "B=$A:$A_\n".toList] =
+    .ok [("A".toList, "/h/x".toList), ("B".toList, "/h/x:/h/x_".toList)] := by decide +kernel
+
+/-- **Fail closed: undefined or empty variable.** If the lines before it were accepted, the line is within the limit, is an
+    assignment, and the first reference its right-hand side holds names a variable that is neither assigned above nor in the
+    defaults — or is assigned the empty string — then the whole file is refused (RuntimeError), whatever follows. -/
+theorem hsmconfig_undefined_variable_fails (cls : Classes) (defaults : Defaults) (maxLines : Int)
+    (pre : List Str) (line : Str) (post : List Str) (st : St) (lhs rhs key : Str)
+    (hpre : loop cls defaults { maxLines, res := [] } pre = .ok st)
+    (hlim : st.maxLines - 1 ≠ 0)
+    (hline : Xml.strip (· == '\n') (Xml.strip cls.isStrip line) = lhs ++ '=' :: rhs)
+    (hlhs : '=' ∉ lhs) (hcomment : (lhs ++ '=' :: rhs).head? ≠ some '#')
+    (href : searchVar cls.isWord rhs = some key)
+    (hundef : lookupVar st.res defaults key = none ∨ lookupVar st.res defaults key = some []) :
+    parseHsmconfig cls defaults maxLines (pre ++ line :: post) = .err .runtime := by
+  have hsplit : ∀ (l : Str), '=' ∉ l → splitEq (l ++ '=' :: rhs) = some (l, rhs) := by
+    intro l
+    induction l with
+    | nil => intro _; simp [splitEq]
+    | cons c l ih =>
+      intro hm
+      have hc : c ≠ '=' := fun h => hm (by simp [h])
+      have hl : '=' ∉ l := fun h => hm (List.mem_cons_of_mem _ h)
+      simp [splitEq, hc, ih hl]
+  have hstep : step cls defaults st line = .err .runtime := by
+    unfold step
+    simp only [hline, if_neg hlim]
+    have hne : ((lhs ++ '=' :: rhs).isEmpty || (lhs ++ '=' :: rhs).head? == some '#') = false := by
+      have h1 : (lhs ++ '=' :: rhs).isEmpty = false := by cases lhs <;> rfl
+      have h2 : ((lhs ++ '=' :: rhs).head? == some '#') = false := by
+        cases hh : (lhs ++ '=' :: rhs).head? == some '#'
+        · rfl
+        · exact absurd (by simpa using hh) hcomment
+      rw [h1, h2]; rfl
+    rw [hne]
+    simp only [Bool.false_eq_true, if_false, hsplit lhs hlhs,
+      interpolate_undefined cls.isWord _ _ rhs key href hundef]
+  unfold parseHsmconfig
+  rw [loop_append cls defaults pre _ st (line :: post) hpre]
+  simp only [loop, hstep]
+example : loop Xml.pyClasses (fun _ => none) { maxLines := 100, res := [] } ["A=\n".toList] =
+      .ok { maxLines := 99, res := [("A".toList, [])] } ∧
+    searchVar Xml.pyClasses.isWord "x$A".toList = some "A".toList ∧
+    parseHsmconfig Xml.pyClasses (fun _ => some "dflt".toList) 100 ["A=\n".toList, "B=x$A\n".toList, "C=1\n".toList] =
+      .err .runtime := by decide +kernel
+
+/-- **The line limit.** A successful parse has seen fewer than `max_lines` lines (blank and comment lines count), unless the
+    limit is ≤ 0 — the counter is decremented before it is compared with 0, so a non-positive limit never triggers. -/
+theorem hsmconfig_line_limit (cls : Classes) (defaults : Defaults) (maxLines : Int) (lines : List Str) (res : Dict)
+    (h : parseHsmconfig cls defaults maxLines lines = .ok res) :
+    maxLines ≤ 0 ∨ (lines.length : Int) < maxLines := by
+  unfold parseHsmconfig at h
+  split at h
+  · rename_i st hl; exact (loop_ok_inv cls defaults lines _ _ hl).1
+  · cases h
+  · cases h
+
+/-- … so lines beyond a positive limit are always refused -/
+theorem hsmconfig_too_long_refused (cls : Classes) (defaults : Defaults) (maxLines : Int) (lines : List Str)
+    (hpos : 0 < maxLines) (hlen : maxLines ≤ (lines.length : Int)) :
+    ∃ k, parseHsmconfig cls defaults maxLines lines = .err k := by
+  cases hp : parseHsmconfig cls defaults maxLines lines with
+  | ok res => have := hsmconfig_line_limit _ _ _ _ _ hp; omega
+  | err k => exact ⟨k, rfl⟩
+  | outOfFuel => exact absurd hp (hsmconfig_parse_never_hangs _ _ _ _)
+-- the default limit of 100: 99 blank lines pass, the 100th line is refused although it is blank too; limit 0 is no limit
+example : parseHsmconfig Xml.pyClasses (fun _ => none) 100 (List.replicate 99 ['\n']) = .ok [] ∧
+    parseHsmconfig Xml.pyClasses (fun _ => none) 100 (List.replicate 100 ['\n']) = .err .runtime ∧
+    parseHsmconfig Xml.pyClasses (fun _ => none) 0 (List.replicate 300 ['\n']) = .ok [] := by decide +kernel
+
+/-- **`find_key_by_id` keeps only public and private key objects, handle on the right side.** For EVERY token (any answers,
+    any faults): when the call returns, every key in the list was built from one of the handles the token answered to the
+    CKA_ID query, is of class CKO_PUBLIC_KEY with that handle as `pubkey_handle` and no private handle, or of class
+    CKO_PRIVATE_KEY with that handle as `privkey_handle` and no public handle — never a secret key, certificate or data
+    object; it names the session it was found in; and there are at most as many keys as handles. -/
+theorem find_key_by_id_classes (path : String) (slot : Nat) (keyIdHex : String) (t : Token) (s s' : TokState)
+    (ks : List P11Key) (h : findKeyById path slot keyIdHex t s = (.ok ks, s')) :
+    ∃ hs, t s.count (.findObjects path slot [("ID", .str keyIdHex)]) = .handles hs ∧ ks.length ≤ hs.length ∧
+      ∀ k ∈ ks, ∃ hd ∈ hs, k.module = path ∧ k.slot = slot ∧
+        ((k.keyClass = ckoPublic ∧ k.pubHandle = some hd ∧ k.privHandle = none) ∨
+         (k.keyClass = ckoPrivate ∧ k.privHandle = some hd ∧ k.pubHandle = none)) := by
+  unfold findKeyById at h
+  obtain ⟨a, s1, ha, h⟩ := TokM.bind_ok _ _ _ _ _ _ h
+  have hask : a = t s.count (.findObjects path slot [("ID", .str keyIdHex)]) := by
+    rw [askOk_run] at ha
+    split at ha
+    · simp at ha
+    · simp only [Prod.mk.injEq, Except.ok.injEq] at ha
+      exact ha.1.symm
+  split at h
+  · rename_i hs
+    obtain ⟨hlen, hall⟩ := keysOfObjects_spec path slot t hs _ _ _ h
+    refine ⟨hs, hask ▸ rfl, hlen, ?_⟩
+    intro k hk
+    obtain ⟨hd, hmem, hm, hsl, _, hcls⟩ := hall k hk
+    exact ⟨hd, hmem, hm, hsl, hcls⟩
+  · simp at h
+-- a slot answering three handles under the identifier: a public RSA key, a secret key, a private RSA key;
+-- the secret key is skipped, the other two come back with their handle on the side of their class
+example :
+    let tok : Token := fun _ op => match op with
+      | .findObjects _ _ _ => .handles [1, 2, 3]
+      | .getAttr _ _ 1 ["CLASS", "LABEL"] => .attrs [.num ckoPublic, .str "K"]
+      | .getAttr _ _ 2 ["CLASS", "LABEL"] => .attrs [.num ckoSecret, .str "S"]
+      | .getAttr _ _ 3 ["CLASS", "LABEL"] => .attrs [.num ckoPrivate, .str "K"]
+      | .getAttr _ _ _ ["KEY_TYPE"] => .attrs [.num ckkRsa]
+      | .getAttr _ _ _ ["MODULUS"] => .attrs [.bytes [0x80, 1]]
+      | .getAttr _ _ _ ["PUBLIC_EXPONENT"] => .attrs [.bytes [1, 0, 1]]
+      | _ => .other
+    (findKeyById "mod" 0 "0102" tok {}).1 = .ok [
+      { label := "K", keyType := .rsa, keyClass := ckoPublic, publicKey := some "AwEAAYAB", module := "mod", slot := 0,
+        pubHandle := some 1 },
+      { label := "K", keyType := .rsa, keyClass := ckoPrivate, publicKey := some "AwEAAYAB", module := "mod", slot := 0,
+        privHandle := some 3 }] := by decide +kernel
+
+/-- **`init_pkcs11_modules(config, name)` initialises only the named module.** For every token and every configuration:
+    with a (non-empty) name, every module that comes back carries that name, there are exactly as many as the configuration
+    has entries of that name (a dict: one), and the configuration does have one. -/
+theorem init_by_name_only_that_module (all : List Kskm.HsmConfig) (name typed : String) (hne : name ≠ "") (t : Token)
+    (s s' : TokState) (mods : List P11Module)
+    (h : initPkcs11Modules all (some name) typed all t s = (.ok mods, s')) :
+    (∀ m ∈ mods, m.label = name) ∧ mods.length = (all.filter (fun h => h.label == name)).length ∧
+      (∃ h ∈ all, h.label = name) :=
+  initPkcs11Modules_named all name typed hne t all s s' mods h
+
+/-- … and a name no entry carries is refused (RuntimeError) before ANY token operation: state and log are untouched. -/
+theorem init_by_unknown_name_refused (all : List Kskm.HsmConfig) (name typed : String) (hne : name ≠ "") (t : Token)
+    (s : TokState) (hall : ∀ h ∈ all, h.label ≠ name) :
+    initPkcs11Modules all (some name) typed all t s = (.error (.error .runtime), s) :=
+  initPkcs11Modules_unknown all name typed hne t hall all s hall
+-- two configured modules, the second one asked for: one module comes back, labelled "b", and only "mod_b" was loaded;
+-- a name that is not configured: RuntimeError and an empty log
+def exInitCfgs : List Kskm.HsmConfig :=
+  [{ label := "a", path := "mod_a", pin := some "1", soPin := none }, { label := "b", path := "mod_b", pin := some "1", soPin := none }]
+def exInitTok : Token := fun _ op => match op with | .getSlotList _ => .slots [] | _ => .ok
+example :
+    ((initPkcs11Modules exInitCfgs (some "b") "" exInitCfgs exInitTok {}).1.toOption.map (·.map (·.label))) = some ["b"] ∧
+    ((initPkcs11Modules exInitCfgs (some "b") "" exInitCfgs exInitTok {}).2.log.map (·.1)) =
+      [.getSlotList "mod_b", .initialize "mod_b", .load "mod_b"] ∧
+    (initPkcs11Modules exInitCfgs (some "c") "" exInitCfgs exInitTok {}).1 = .error (.error .runtime) ∧
+    (initPkcs11Modules exInitCfgs (some "c") "" exInitCfgs exInitTok {}).2.log = [] := by decide +kernel
+
+/-- **The limit matters only when it is hit.** Two limits that the source does not reach (non-positive — never reached — or
+    larger than the number of lines) give the same answer, result or error alike; in particular every `max_lines ≤ 0`
+    behaves as "no limit" (the quirk of `max_lines -= 1; if not max_lines`). -/
+theorem hsmconfig_limit_irrelevant_unless_hit (cls : Classes) (defaults : Defaults) (a b : Int) (lines : List Str)
+    (ha : a ≤ 0 ∨ (lines.length : Int) < a) (hb : b ≤ 0 ∨ (lines.length : Int) < b) :
+    parseHsmconfig cls defaults a lines = parseHsmconfig cls defaults b lines := by
+  rw [parse_eq_resOf, parse_eq_resOf]
+  exact loop_budget_irrelevant cls defaults lines a b [] ha hb
+example : ((-5 : Int) ≤ 0 ∨ ((List.replicate 150 ['A', '=', '\n']).length : Int) < -5) ∧
+    parseHsmconfig Xml.pyClasses (fun _ => none) (-5) (List.replicate 150 ['A', '=', '\n']) = .ok [(['A'], [])] := by
+  decide +kernel
+
+/-- **Later lines overwrite earlier keys, first assignment fixes the position** (Python dict semantics of `res[lhs] = rhs`):
+    after the assignment the key reads back the new value, every other key is untouched, and the key order is the old one
+    with a NEW key appended. -/
+theorem hsmconfig_assignment_semantics (d : Dict) (k v : Str) :
+    (Dict.set d k v).get k = some v ∧ (∀ k', k' ≠ k → (Dict.set d k v).get k' = d.get k') ∧
+    (Dict.set d k v).map (·.1) = if k ∈ d.map (·.1) then d.map (·.1) else d.map (·.1) ++ [k] :=
+  ⟨Dict.get_set_same d k v, fun k' hk => Dict.get_set_other d k k' v hk, Dict.keys_set d k v⟩
+example : parseHsmconfig Xml.pyClasses (fun _ => none) 100 ["A=1\n".toList, "B=2\n".toList, "A=$B$A\n".toList] =
+    .ok [("A".toList, "21".toList), ("B".toList, "2".toList)] := by decide +kernel
+
+/-- `load_hsmconfig` returns only dicts that set PKCS11_LIBRARY_PATH -/
+theorem hsmconfig_load_has_library_path (cls : Classes) (defaults : Option (List (Str × Str))) (environ : Defaults)
+    (maxLines : Int) (text : Str) (res : Dict) (h : loadHsmconfig cls defaults environ maxLines text = .ok res) :
+    (res.get pkcs11LibraryPath).isSome = true := by
+  unfold loadHsmconfig at h
+  simp only at h
+  split at h
+  · split at h
+    · rename_i hs; cases h; exact hs
+    · cases h
+  · cases h
+  · cases h
+
+/-- **Fail closed: a substituted value may not itself hold a "$".** Whatever follows, a reference whose value (from an earlier
+    line or from the defaults) contains "$" is refused with ValueError — values are never re-scanned, so no indirection. -/
+theorem hsmconfig_indirect_reference_refused (isWord : Char → Bool) (lookup : Str → Option Str) (fuel : Nat)
+    (rhs key val : Str) (hs : searchVar isWord rhs = some key) (hl : lookup key = some val) (hv : '$' ∈ val) :
+    interpolate isWord lookup fuel rhs = .err .value := by
+  have hr : interpRound isWord lookup rhs = .done (.err .value) := by
+    unfold interpRound
+    rw [hs]; simp only [hl]
+    cases val with
+    | nil => simp at hv
+    | cons v vs =>
+      have hc : (v :: vs).contains '$' = true := by simpa using hv
+      simp only
+      rw [if_pos hc]
+  cases fuel <;> rw [interpolate, hr]
+example : searchVar Xml.pyClasses.isWord "x/$B".toList = some "B".toList ∧ '$' ∈ "$C".toList ∧
+    parseHsmconfig Xml.pyClasses (fun k => if k = "B".toList then some "$C".toList else some "c".toList) 100
+      ["A=x/$B\n".toList] = .err .value := by decide +kernel
+
+/-- the same guarantee for `load_hsmconfig`: whatever file, defaults and environment, a returned value holds no "$"
+    followed by a word character -/
+theorem hsmconfig_load_result_interpolated (cls : Classes) (defaults : Option (List (Str × Str))) (environ : Defaults)
+    (maxLines : Int) (text : Str) (res : Dict) (h : loadHsmconfig cls defaults environ maxLines text = .ok res) :
+    ∀ p ∈ res, ∀ (pre : Str) (c : Char) (post : Str), p.2 = pre ++ '$' :: c :: post → cls.isWord c = false := by
+  unfold loadHsmconfig at h
+  simp only at h
+  split at h
+  · rename_i r hp
+    split at h
+    · cases h; exact hsmconfig_result_interpolated _ _ _ _ _ hp
+    · cases h
+  · cases h
+  · cases h
+example : loadHsmconfig Xml.pyClasses none (fun k => if k = "HOME".toList then some "/h".toList else none) 100
+      "# keyper\r\nPKCS11_LIBRARY_PATH=$HOME/p11.so\rLD=$PKCS11_LIBRARY_PATH".toList =
+    .ok [("PKCS11_LIBRARY_PATH".toList, "/h/p11.so".toList), ("LD".toList, "/h/p11.so".toList)] := by decide +kernel
 
 end Kskm.C15
